@@ -71,6 +71,36 @@ theorem c14_roundtrip (pre post : List Char) :
   have h := roundtrip_aux pre post 0 0 0
   simpa [Impl.positionToOffset, Impl.offsetToLineCol] using h
 
+/-- **Positions in answers refer to the editor's text (clause "every position-carrying answer …
+refers to the editor's text", conversion part).**  For every text with `\n`/`\r\n` line ends and
+every character boundary `len8 pre` that is not between the `\r` and `\n` of a line end, the
+position `offset_to_line_col` produces is a position of the editor's buffer, it denotes — by the
+editor's own reading in UTF-16 units — exactly the boundary after `pre`, and it does not split a
+surrogate pair.  (This is the direction in which char- or byte-counted columns were wrong.) -/
+theorem c14_emit (pre post : List Char)
+    (hlf : Spec.lfOrCrlf (encode16 (pre ++ post)) = true)
+    (hsplit : splitsCrlf pre post = false) :
+    Spec.offsetOf (encode16 (pre ++ post))
+      (Impl.offsetToLineCol (pre ++ post) (len8 pre)).1
+      (Impl.offsetToLineCol (pre ++ post) (len8 pre)).2 = some (len16 pre) ∧
+    Spec.onBoundary (encode16 (pre ++ post)) (len16 pre) = true := by
+  obtain ⟨L, C, h1, h2⟩ := emit_aux pre post 0 0 0 hlf hsplit
+  have h1' : Impl.offsetToLineCol (pre ++ post) (len8 pre) = (L, C) := by
+    simp only [Impl.offsetToLineCol]
+    rw [show len8 pre = 0 + len8 pre by omega, h1]
+    by_cases h0 : L = 0 <;> simp [h0]
+  rw [h1']
+  exact ⟨h2, onBoundary_encode16 pre post⟩
+
+/-- **No position can make the splice panic.**  For every text and every change list — including
+positions no editor sends (beyond the line, beyond the document, inside a surrogate pair, reversed)
+— `apply_content_changes` either accepts or rejects: the byte offsets `position_to_offset` returns
+are always character boundaries within the text, so `&updated[..start]` / `&updated[end..]` never
+panic and the document is never lost to a crashed handler.  No hypothesis. -/
+theorem c14_no_panic (s : List Char) (cs : List Impl.Change) :
+    Impl.applyContentChanges s cs ≠ .panic :=
+  applyContentChanges_no_panic cs s
+
 /-- **The guard is necessary (known finding C14-lone-cr).**  A lone `\r` ends a line for the editor
 (LSP 3.17) but not for the server: on `"a\rb"` the editor's insertion at line 1, column 0 is
 rejected by `apply_content_changes` (line 1 does not exist), so the texts diverge. -/
@@ -88,6 +118,14 @@ example :
     Spec.applyChange (encode16 ['😀', 'x']) (.range 0 2 0 2 (encode16 ['y'])) =
       some (encode16 ['😀', 'y', 'x']) ∧
     Impl.applyChange ['😀', 'x'] (.range 0 2 0 2 ['y']) = .ok ['😀', 'y', 'x'] := by decide
+
+/-- `c14_emit` behind an astral character on a CRLF line: the server says (1, 3) for the offset of
+`x` in `"a\r\n😀éx"`, and that is where the editor finds it. -/
+example :
+    let pre := ['a', '\r', '\n', '😀', 'é']
+    let post := ['x']
+    Spec.lfOrCrlf (encode16 (pre ++ post)) = true ∧ splitsCrlf pre post = false ∧
+    Impl.offsetToLineCol (pre ++ post) (len8 pre) = (1, 3) ∧ len8 pre = 9 ∧ len16 pre = 6 := by decide
 
 /-- `c14_changes` / `c14_history` on a CRLF document with an astral character and a two-change
 notification that crosses a line end. -/
